@@ -4,5 +4,5 @@ set -e
 D=$(mktemp -d /tmp/mutXXXXXX); mkdir -p $D/src; cp -r /repo/src/pydrex $D/src/
 sed -i "$3" $D/src/pydrex/$2
 if cmp -s $D/src/pydrex/$2 /repo/src/pydrex/$2; then echo "MUTATION DID NOT APPLY"; rm -rf $D; exit 3; fi
-cd /verif; python3-vt -m pdxsa check $1 --repo $D 2>&1 | grep -E "^VIOLATION|^property=|ANALYSIS-ERROR|rule=" | head -${4:-6} | cut -c1-220
+cd /verif; PDXSA_EVIDENCE_DIR=$D/evidence python3-vt -m pdxsa check $1 --repo $D 2>&1 | grep -E "^VIOLATION|^property=|ANALYSIS-ERROR|rule=" | head -${4:-6} | cut -c1-220
 rm -rf $D
